@@ -216,7 +216,7 @@ def explore12(cfg: dict) -> dict:
 
 def configs(tier: str):
     out = []
-    N = 3 if tier == 'quick' else 5
+    N = 3 if tier == 'quick' else 4
     fill_sets = [
         dict(fill_value=None, fills={}),
         dict(fill_value=7, fills={}),
@@ -262,7 +262,7 @@ def main() -> int:
         rep, configs(tier), TWINS,
         functions=['fsic.core.containers.VectorContainer.reindex', 'VectorContainer.copy', 'fsic.core.models.BaseModel.reindex',
                    'VectorContainer._locate_period_in_span'],
-        bounds={'old_span_length': f"0..{3 if tier == 'quick' else 5}", 'new_span_length': f"0..{3 if tier == 'quick' else 5}",
+        bounds={'old_span_length': f"0..{3 if tier == 'quick' else 4}", 'new_span_length': f"0..{3 if tier == 'quick' else 4}" ,
                 'labels': 'unconstrained integers: every equality pattern within and between the spans',
                 'dtypes': ['float', 'int', 'bool', 'str', 'status <U1', 'iterations int'], 'fills': 'default / fill_value / per-variable / unknown names x strict'},
         outside=['PandasIndexFeaturesMixin.reindex (pandas)', 'pandas span types', 'full independence of the result (C11, not applicable); a single mutation probe is run',
